@@ -76,12 +76,30 @@ pub fn gen_crash(property: &str, profile: &str, seed: u64) -> Plan {
     if sw.rng.chance(1, 3) {
         s2.validate_data = Some(sw.rng.chance(1, 2));
     }
+    let double = profile.starts_with("crash-double");
+    if double {
+        // a process kill, then (in the recovery session) a power loss: un-synced bytes that survived
+        // the kill in the page cache are lost by the second crash unless something synced them
+        s0.end = SessionEnd::Killed;
+        s1.end = SessionEnd::PowerLoss(power_cut(&mut sw.rng));
+        s1.lazy_init = false;
+    }
     plan.sessions = vec![s0, s1, s2];
     if !profile.contains("sweep") {
         let m = mutating_events(&plan).max(1);
         let e = sw.rng.below(m);
         let keep = *sw.rng.pick(&kill_keeps(plan.store.key_len));
         plan.faults = vec![FaultSpec { session: 0, sel: Sel::Global { n: e }, action: FaultAction::Kill { keep } }];
+        if double {
+            if sw.rng.chance(1, 2) {
+                let e1 = sw.rng.below(24);
+                let keep1 = *sw.rng.pick(&kill_keeps(plan.store.key_len));
+                plan.faults.push(FaultSpec { session: 1, sel: Sel::Global { n: e1 }, action: FaultAction::Kill { keep: keep1 } });
+            } else {
+                // right after an index file became durable: is the blob it describes durable too?
+                plan.faults.push(FaultSpec { session: 1, sel: Sel::Nth { kind: IoKind::Sync, class: PathClass::Index, n: sw.rng.below(3) }, action: FaultAction::Kill { keep: u32::MAX } });
+            }
+        }
     }
     plan
 }
